@@ -229,6 +229,11 @@ class C12(Prop):
         c.append({"name": "wqrun-small", "ops": ["wqrun size=1 workers=1 blocks=1 items=3 seed=1 pert=0", "wqrun size=4 workers=3 blocks=4 items=12 seed=2 pert=60",
                                                              "wqrun size=2 workers=3 blocks=2 items=9 seed=3 pert=80 lazy=1"]})
         c.append({"name": "thrun-small", "ops": ["thrun workers=1 rounds=2 seed=1 pert=0", "thrun workers=4 rounds=2 seed=3 pert=70"]})
+        # regression case of the repaired defect C12:dsqdata:truncated-index-reads-as-smaller-db (fix 78cbf46): three sequences, the index cut behind
+        # the record of the first one - Read() used to answer eslEOF after 1 of 3 sequences; also the intact files and the index cut inside a record
+        body3 = "abc=dna names=x7331,x7332,x7333 descs=x,x,x dsq=x00010203000102030001,x02020202010101010000,x03030303030303030303"
+        c.append({"name": "dsqcut-index-truncated", "ops": ["dsqcut %s file=dsqi at=%d maxseq=0 maxpacket=0 unpackers=0 pert=0 seed=1" % (body3, at) for at in (68, 75, 84, 100, 101)]
+                  + ["dsqcut %s file=dsqs at=%d maxseq=1 maxpacket=2 unpackers=2 pert=30 seed=2" % (body3, at) for at in (8, 11, 12, 16, 19, 20, 24, 31, 32)]})
         c.append(self.dsq_case("dsq-one-per-chunk", "dna", [[0, 1, 2, 3] * 5, [], [15] * 7, [0, 1, 2, 3] * 10 + [4 + 1]], 1, 8, 2, 2, 1))
         c.append(self.dsq_case("dsq-library-defaults", "dna", [[0, 1, 2, 3] * 9, [], [15, 0, 1] * 5, [2] * 31], 0, 0, 0, 3, 5))
         c.append(self.dsq_case("dsq-single-empty-seq", "amino", [[]], 3, 4, 1, 2, 1))
